@@ -25,7 +25,7 @@ func checkC13(r *Run) int {
 		base = append(base, space.F2(space.Representatives(), false)...)
 		base = append(base, space.F3(space.Representatives())...)
 	} else {
-		base = append(base, space.F2(space.Representatives()[:14], false)...)
+		base = append(base, space.F2(space.Representatives(), false)...)
 	}
 	var cases []*space.Case
 	for _, c := range base {
